@@ -451,8 +451,18 @@ pub fn run(ctx: &mut WorkerCtx, job: &Value) -> JobOutput {
         }
     }
     cmd.current_dir(&run_cwd);
-    let out_model = root.join("modelo_salida.json");
-    let out_ind = root.join("indicadores_salida.json");
+    // -o / -r as the user types them: absolute, or relative to the working directory
+    let out_form = job["out_form"].as_str().unwrap_or("abs");
+    let (arg_model, arg_ind): (PathBuf, PathBuf) = match out_form {
+        "rel" => (PathBuf::from("modelo_salida.json"), PathBuf::from("indicadores_salida.json")),
+        "rel_subdir" => {
+            let _ = std::fs::create_dir_all(run_cwd.join("salidas"));
+            (PathBuf::from("salidas/modelo_salida.json"), PathBuf::from("./salidas/indicadores_salida.json"))
+        }
+        _ => (root.join("modelo_salida.json"), root.join("indicadores_salida.json")),
+    };
+    let out_model = if arg_model.is_absolute() { arg_model.clone() } else { run_cwd.join(&arg_model) };
+    let out_ind = if arg_ind.is_absolute() { arg_ind.clone() } else { run_cwd.join(&arg_ind) };
     let _ = std::fs::remove_file(&out_model);
     let _ = std::fs::remove_file(&out_ind);
     if has(job, "stale_output") {
@@ -484,9 +494,9 @@ pub fn run(ctx: &mut WorkerCtx, job: &Value) -> JobOutput {
             Some(f) => f.clone(),
             None => given.join("no_existe.ctehexml"),
         };
-        cmd.arg(&file).arg("-o").arg(&out_model);
+        cmd.arg(&file).arg("-o").arg(&arg_model);
         if job["thor_r"].as_bool().unwrap_or(false) {
-            cmd.arg("-r").arg(&out_ind);
+            cmd.arg("-r").arg(&arg_ind);
         }
         for _ in 0..job["thor_v"].as_u64().unwrap_or(0) {
             cmd.arg("-v");
